@@ -117,6 +117,40 @@ class Context:
     def note(self, text: str):
         self.notes.append(text)
 
+    def borrow(self, module_name: str, mapping: dict):
+        """Run another property's rule module on a shadow context and adopt selected rules under new ids.
+
+        Used when one structural clause is a necessary condition of two properties: the rule lives in one module, both
+        properties claim (and report) it.  An analysis failure of the *other* rules of that module does not concern this
+        property: it is recorded as a note (that property's own check fails closed on it)."""
+        import importlib
+
+        mod = importlib.import_module(f"iodalint.rules.{module_name}")
+        sub = Context(self.prog, self.prop, self.tier)
+        try:
+            mod.run(sub)
+        except AnalysisError as exc:
+            if not all(old in sub.rules and sub.rules[old]["obligations"] for old in mapping):
+                raise AnalysisError(f"rules {sorted(mapping)} borrowed from {module_name} could not be decided: {exc}") from exc
+            self.note(f"borrowed rules {sorted(mapping)} of {module_name}: a later rule of that module failed ({exc}); the borrowed rules had been decided")
+        for old, new in mapping.items():
+            r = sub.rules.get(old)
+            if r is None:
+                raise AnalysisError(f"{module_name} has no rule {old} any more")
+            mine = self.rule(new, r["title"], r["witness"])
+            mine["obligations"] += r["discharged"]
+            mine["discharged"] += r["discharged"]
+            mine["instances"].extend(r["instances"][: max(0, 6 - len(mine["instances"]))])
+            for fl in r.get("floors", []):
+                mine.setdefault("floors", []).append(fl)
+            for fd in sub.findings:
+                if fd.rule == old:
+                    mine["obligations"] += 1
+                    nf = Finding(self.prop, new, fd.relpath, fd.function, fd.construct, fd.message, fd.line, fd.witness, fd.entry)
+                    if not any(x.key == nf.key for x in self.findings):
+                        self.findings.append(nf)
+            self._distinct |= {(new, w, c) for (rid, w, c) in sub._distinct if rid == old}
+
     def floor(self, rid: str, count: int, minimum: int, what: str):
         """Fail closed when a rule matches fewer instances than confirmed by hand."""
         self.rules[rid].setdefault("floors", []).append({"what": what, "count": count, "min": minimum})
